@@ -31,6 +31,20 @@ def make_case(rng, i, tier):
     notes = gen.wf_notes(rng, rng.randint(1, 7), chans=chans, pitches=(60, 62, 64, 65), tmax=90, lmin=2, lmax=30)
     if not notes:
         notes = [[chans[0], 60, 0, 10, 5]]
+    if not single and len(notes) >= 2 and rng.random() < 0.6:
+        # exact onset ties between channels (the interleaving's tie-break then depends on the channel order)
+        a = notes[0]
+        for b in notes[1:]:
+            if b[0] != a[0] and b[1] != a[1]:
+                b[2] = a[2]
+                break
+        # drop overlaps the move may have created
+        keep, busy = [], {}
+        for c, pp, on, ln, v in notes:
+            if all(on + ln <= x or on >= y for x, y in busy.get((c, pp), [])):
+                busy.setdefault((c, pp), []).append((on, on + ln))
+                keep.append([c, pp, on, ln, v])
+        notes = keep
     extra = []
     if rng.random() < 0.7:
         extra.append(["ts", rng.choice([0, 0, 24]), rng.choice([3, 4, 6]), rng.choice([4, 8])])
